@@ -157,6 +157,31 @@ pub fn cases() -> Vec<Case> {
     v.push(case("binder/refutable-nested-in-tuple", Reject, &format!("begin\n{opt}let (a, +Some(x)) : Int64 * Opt = (1, +None()) in\n! exit x\nend\n")));
     v.push(case("binder/refutable-alias", Reject, &format!("begin\n{opt}let v : Opt = +None() in\nlet (w; +Some(_)) = v in\n! exit 0\nend\n")));
     v.push(case("binder/single-constructor-is-irrefutable", Accept, "begin\ndef Box : VType = data | +Box : Int64 end that\nlet +Box(x) = (+Box(7) : Box) in\n! exit x\nend\n"));
+    // … and so are the binders of value-level terms (pure functions `A -> B`, value-level `let`)
+    v.push(case("binder/refutable-pure-function", Reject, &format!("begin\n{opt}let unwrap : Opt -> Int64 = fn (+Some(n) : Opt) => n that\nlet code : Int64 = unwrap (+None() : Opt) that\n! exit code\nend\n")));
+    v.push(case("binder/refutable-value-let", Reject, &format!("begin\n{opt}let v : Opt = +None() that\nlet code : Int64 = (let +Some(n) = v in n) that\n! exit code\nend\n")));
+    v.push(case("binder/refutable-value-let-in-pure-function", Reject, &format!("begin\n{opt}let f : Opt -> Int64 = fn (o : Opt) => (let +Some(n) = o in n) that\nlet code : Int64 = f (+None() : Opt) that\n! exit code\nend\n")));
+    v.push(case("binder/irrefutable-pure-function", Accept, "begin\nlet fst : Int64 * Int64 -> Int64 = fn ((a, b) : Int64 * Int64) => a that\nlet code : Int64 = fst (3, 4) that\n! exit code\nend\n"));
+    // a data / codata type names each constructor / destructor once: with a repeated name the introduction and the
+    // elimination may look at different arms
+    v.push(case("decl/duplicate-constructor-let", Reject, "begin\nlet D = data | +A : Int64 | +A : String end that\nlet d : D = +A(7) that\nmatch d | +A(s) => ! write_line s { ! exit 0 } end\nend\n"));
+    v.push(case("decl/duplicate-constructor-def", Reject, "begin\ndef D : VType = data | +A : String | +A : Int64 end that\nlet d : D = +A(\"s\") that\nmatch d | +A(n) => do m <- ! add n 1; ! exit m end\nend\n"));
+    v.push(case("decl/duplicate-constructor-same-payload", Reject, "begin\nlet D = data | +A : Int64 | +B : Unit | +A : Int64 end that\nlet d : D = +A(7) that\nmatch d | +A(n) => ! exit n | +B() => ! exit 1 end\nend\n"));
+    v.push(case("decl/duplicate-destructor-let", Reject, "begin\nlet K = codata | .a : Ret Int64 | .a : Ret String end that\nlet o : Thk K = { comatch | .a => ret 1 end } that\ndo s <- ! o .a;\n! write_line s { ! exit 0 }\nend\n"));
+    v.push(case("decl/duplicate-destructor-def", Reject, "begin\ndef K : CType = codata | .a : Ret String | .a : Ret Int64 end that\nlet o : Thk K = { comatch | .a => ret \"s\" end } that\ndo n <- ! o .a;\ndo m <- ! add n 1;\n! exit m\nend\n"));
+    // `fix (x : T) => M` binds a thunk of M: T must be `Thk B`, also where the fix synthesises its type
+    v.push(case("fix/binder-not-a-thunk-in-synthesis", Reject, "begin\ndef ! weird (F : CType -> VType) (use : Thk (F (Int64 -> Ret Int64) -> Ret Int64)) : Ret Int64 =\n  (fix (self : F (Int64 -> Ret Int64)) => fn (x : Int64) => ! use self) 5\nthat\nlet Const (B : CType) = Int64 that\ndo n <- ! weird Const { fn (i : Int64) => ! add i 1 };\n! exit n\nend\n"));
+    v.push(case("fix/binder-thunk-in-synthesis-ok", Accept, "do n <- (fix (self : Thk (Int64 -> Ret Int64)) => fn (x : Int64) => ret x) 5;\n! exit n\n"));
+    // two introductions of one `forall` type (shared through an alias) bind two different type variables
+    v.push(case("forall/alias-introduced-twice-nested", Reject, "begin\nlet T = forall (A : VType) . A -> Thk (A -> OS) -> OS that\ndef ! outer : T = fn A x k =>\n  let inner : Thk T = { fn B y k2 => ! k2 x } in\n  ! inner String \"boom\" { fn (s : String) => ! write_line s { ! exit 0 } }\nthat\n! outer Int64 7 { fn (n : Int64) => ! exit n }\nend\n"));
+    v.push(case("forall/alias-introduced-twice-nested-ok", Accept, "begin\nlet T = forall (A : VType) . A -> Thk (A -> OS) -> OS that\ndef ! outer : T = fn A x k =>\n  let inner : Thk T = { fn B y k2 => ! k2 y } in\n  ! inner String \"fine\" { fn (s : String) => ! write_line s { ! k x } }\nthat\n! outer Int64 7 { fn (n : Int64) => ! exit n }\nend\n"));
+    // a type function applied to itself: the two quantifiers it produces are different binders
+    let ff = "let F (X : CType) = forall (Y : VType) . Y -> X that\ndef ! f : F (F (Ret Int64)) = fn (A : VType) (a : A) (B : VType) (b : B) => ret 0 that\n";
+    v.push(case("forall/type-function-applied-to-itself-ok", Accept, &format!("begin\n{ff}do n <- ! f String \"a\" Int64 5;\n! exit n\nend\n")));
+    v.push(case("forall/type-function-applied-to-itself-wrong-argument", Reject, &format!("begin\n{ff}do n <- ! f String \"a\" Int64 \"b\";\n! exit n\nend\n")));
+    // an opened witness does not leave its scope inside a locally sealed type either
+    v.push(case("exists/witness-escapes-through-local-def", Reject, "begin\ndef packed : exists (X : VType) . X = (Int64, 0) that\ndo leaked <- (match packed | (X, x) => def D = data | +Mk : X end in ret (+Mk(x) : D) end);\n! exit 0\nend\n"));
+    v.push(case("exists/witness-escapes-through-local-let", Reject, "begin\ndef packed : exists (X : VType) . X = (Int64, 0) that\ndo leaked <- (match packed | (X, x) => let D = data | +Mk : X end in ret (+Mk(x) : D) end);\n! exit 0\nend\n"));
     // typed term holes: accepted by design (their types are reported), never executable
     v.push(case("hole/term-hole-value", Either, "let x : Int64 = _ in\n! exit x\n"));
     v.push(case("hole/term-hole-computation", Either, "let x : Thk OS = { _ } in\n! x\n"));
